@@ -56,7 +56,20 @@ def gen_case(rng, tier, index):
     d = gen.encode(rng, T, vals, "random", cfg)
     prog = rng.choice(PROGRAMS)
     n = len(vals)
-    case = {"T": T, "layout": d, "prog": prog, "n": n,
+    wrap = None
+    r = rng.random()
+    if r < 0.12 and n >= 1 and not has_union(T):
+        wrap = "virtual"
+    elif r < 0.27 and n >= 2 and not has_union(T):
+        wrap = "partitioned"
+    parts = None
+    if wrap == "partitioned":
+        cuts = sorted(rng.randint(0, n) for _ in range(rng.randint(1, 2)))
+        parts, a0 = [], 0
+        for c in cuts + [n]:
+            parts.append(gen.encode(rng, T, vals[a0:c], "canonical", cfg))      # one Form for all partitions
+            a0 = c
+    case = {"T": T, "layout": d, "prog": prog, "n": n, "wrap": wrap, "parts": parts,
             "i": rng.choice([0, 1, -1, n - 1, n, -n, -n - 1, n + 3, 2]),
             "j": rng.choice([0, 1, 2, -1]), "a": rng.randint(-2, n + 1), "b": rng.randint(-2, n + 2),
             "needle": rng.choice([0, 1, 2, 3, 5, -1]), "stop_after": rng.choice([None, None, 1, 3, 7])}
@@ -216,12 +229,12 @@ def make_program(case):
             return prog, "def f(x):\n    return %s\n" % _field_expr("x", T, i), "plain"
         return "len", "def f(x):\n    return len(x)\n", "plain"
     if prog == "in":
-        if T["t"] == "prim":
+        if T["t"] == "prim" and case.get("wrap") != "partitioned":     # (`in` is not defined for partitioned views)
             return prog, "def f(x, needle):\n    return needle in x\n", "in"
         return "len", "def f(x):\n    return len(x)\n", "plain"
     if prog == "asarray":
         d = case["layout"]
-        if T["t"] == "prim" and d["c"] == "NumpyArray" and len(d["shape"]) == 1:
+        if T["t"] == "prim" and d["c"] == "NumpyArray" and len(d["shape"]) == 1 and not case.get("wrap"):
             return prog, "def f(x):\n    a = np.asarray(x)\n    return a.sum(), a.shape[0]\n", "plain"
         return "len", "def f(x):\n    return len(x)\n", "plain"
     if prog == "builder":
@@ -283,6 +296,12 @@ def run_case(ctx, case):
     except Exception as e:     # noqa
         raise RuntimeError("numba.njit failed on generated source: %r" % (e,))
     arr = P.array(d)
+    ctx.cover("array_kind", case.get("wrap") or "plain")
+    if case.get("wrap") == "partitioned":
+        arr = ak.Array(ak.partition.IrregularlyPartitionedArray([P.layout(p) for p in case["parts"]]))
+    elif case.get("wrap") == "virtual":
+        inner = arr
+        arr = ak.virtual(lambda: inner, length=len(inner), form=inner.layout.form)
     n = case["n"]
     stop = -1 if case["stop_after"] is None else case["stop_after"]
     if kind == "walk":
@@ -347,13 +366,15 @@ def run_refcount(ctx, ak, P, jit, arr, det):
         ctx.cover("not_compilable", "refcount:" + type(e).__name__)
         return
     gc.collect()
-    use0 = ctx.lib.L.akb_use_count(lay._h)
+    handle = getattr(lay, "_h", None)         # (a partitioned array is a Python object without a C++ owner of its own)
+    uses = (lambda: ctx.lib.L.akb_use_count(handle)) if handle else (lambda: 0)
+    use0 = uses()
     r_arr, r_lay = sys.getrefcount(arr), sys.getrefcount(lay)
     for reps in (1, 10, 100):
         for _ in range(reps):
             jit(arr)
         gc.collect()
-        now = (sys.getrefcount(arr), sys.getrefcount(lay), ctx.lib.L.akb_use_count(lay._h))
+        now = (sys.getrefcount(arr), sys.getrefcount(lay), uses())
         ctx.count("refcount_comparisons")
         if now != (r_arr, r_lay, use0):
             ctx.violation("reference-counts-drift", dict(det, before=[r_arr, r_lay, use0], after=list(now), calls=reps))
